@@ -87,18 +87,63 @@ func (o *ExpressionOptimizer) tryReorderBinaryOp(e *BinaryOpExpr) {
 			switch rexpr := leftOpExpr.Right.(type) {
 			case *StringExpr, *NumberExpr, *FloatExpr:
 				// (ANY op VALUE) op VALUE
-				e.Left = leftOpExpr.Left
-				e.Right = &BinaryOpExpr{Pos: e.GetPos(), Op: e.Op, Left: leftOpExpr.Right, Right: e.Right}
+				values := &BinaryOpExpr{Pos: e.GetPos(), Op: e.Op, Left: leftOpExpr.Right, Right: e.Right}
+				if _, _, overflow := constIntChain(values, e.Op); !overflow {
+					e.Left = leftOpExpr.Left
+					e.Right = values
+				}
 			case *BinaryOpExpr:
 				if isBinaryOpExprAllValue(rexpr, e.Op) {
-					e.Left = leftOpExpr.Left
-					e.Right = &BinaryOpExpr{Pos: e.GetPos(), Op: e.Op, Left: leftOpExpr.Right, Right: e.Right}
+					values := &BinaryOpExpr{Pos: e.GetPos(), Op: e.Op, Left: leftOpExpr.Right, Right: e.Right}
+					if _, _, overflow := constIntChain(values, e.Op); !overflow {
+						e.Left = leftOpExpr.Left
+						e.Right = values
+					}
 				}
 			}
 		}
 		// fmt.Println("DEBUG:", e)
 	}
 	return
+}
+
+// constIntChain evaluates a tree of integer literals joined by op (+ or *)
+// and reports whether combining them leaves int64. Grouping such constants
+// would change the value of a float-valued expression: written as
+// (x op c1) op c2 every step is float arithmetic and nothing overflows.
+func constIntChain(expr Expression, op Operator) (val int64, isInt bool, overflow bool) {
+	switch e := expr.(type) {
+	case *NumberExpr:
+		return e.Int, true, false
+	case *BinaryOpExpr:
+		if e.Op != op {
+			return 0, false, false
+		}
+		l, lInt, lOverflow := constIntChain(e.Left, op)
+		r, rInt, rOverflow := constIntChain(e.Right, op)
+		if lOverflow || rOverflow {
+			return 0, false, true
+		}
+		if !lInt || !rInt {
+			return 0, false, false
+		}
+		if op == Add {
+			sum := l + r
+			if (l > 0 && r > 0 && sum < 0) || (l < 0 && r < 0 && sum >= 0) {
+				return 0, false, true
+			}
+			return sum, true, false
+		}
+		if l == 0 || r == 0 {
+			return 0, true, false
+		}
+		prod := l * r
+		if prod/r != l || (l == -1 && r == math.MinInt64) || (r == -1 && l == math.MinInt64) {
+			return 0, false, true
+		}
+		return prod, true, false
+	}
+	return 0, false, false
 }
 
 func isBinaryOpExprAllValue(expr *BinaryOpExpr, op Operator) bool {
